@@ -1,0 +1,7 @@
+//go:build !verif
+
+package sourcebundle
+
+import "context"
+
+func verifSched(ctx context.Context, site string) {}
